@@ -46,7 +46,9 @@ CHECKS = {
             "normal equations of detrend_1d + exhaustive small-lattice correspondence + definition oracle",
             "Theorems running_len (every width incl. > length), refl_*, windowIdx_*, runningMean_get/_const, "
             "downsample1d_*, flat_eq_2d (row/column roles for non-square shapes), downsample2d_shape, "
-            "detrend_normal_eqs, detrend_line.",
+            "detrend_normal_eqs, detrend_line. Source tie (re-translated every run): Kernels/Downsample1d/2d, "
+            "Tie/FilterGeom, Tie/Detrend (detrend_1d_is_model), Tie/DecimWrap (the Python wrappers downsample_1d/2d/2d_flat: "
+            "down*_accepts_iff, down1d_median_is_groups, down2d_is_groups, down2d_mean_is_model, down2dflat_groups_are_model).",
             "bottleneck's move_mean/move_median and np.pad('symmetric') are modelled by their definitions and tied by "
             "correspondence over all lengths 1..16(24) x widths 1..2n+3; float rounding compared with tolerance.",
             "§5 C14"),
@@ -56,7 +58,9 @@ CHECKS = {
             "file as an instance of C07's row-local streaming theorem + differential correspondence of every mask after "
             "every call + independent outlier/masking oracle on real files",
             "Theorems mask_union, mask_monotone(_trace), user_mask_spec, stats_mask_spec, threshold_spec, "
-            "cleaned_file_spec / cleaned_sample (masked channels constant, others identical, every gulp).",
+            "cleaned_file_spec / cleaned_sample (masked channels constant, others identical, every gulp). Source tie: "
+            "Tie/StateMachines (apply_*_is_model), Tie/CleanRfi (clean_rfi_is_model: the orchestration of Filterbank.clean_rfi, "
+            "translated over the translated RFIMask methods, is Rfi.cleanRfi; default fill value; conversions_spec), Tie/StatsLane (doublemad).",
             "Which channels are statistical outliers is C15's z-score thresholding (compared with an independent NumPy "
             "implementation); the HDF5 mask-file round trip is validated only (external container).", "§5 C16"),
     "C12": ("Lean 4 proof of the padding/slicing/lag bookkeeping around the FFT (circular convolution of zero-padded "
@@ -128,7 +132,9 @@ CHECKS = {
             "NumPy whole-array oracle",
             "Theorems rowLocal_stream (+ invert/mask/extract instances and row-kernel specs), downsample_stream (gulp "
             "rounded to a multiple of tfactor ⇒ grouping commutes with block boundaries, remainder dropped), "
-            "subband_stream, bandStarts_spec, shape theorems, zerodmRow_sum over ℚ, gulp-independence corollaries.",
+            "subband_stream, bandStarts_spec, shape theorems, zerodmRow_sum over ℚ, gulp-independence corollaries. Source tie: "
+            "generated kernels (Kernels/*), Tie/Plan, Tie/Subband, Tie/StreamCalls (which kernel gets which array / offset / "
+            "overlap, what is written), Tie/CleanRfi.conversions_spec (fill value only rounded to float32 and cast).",
             "Values are integers; reduction to the output depth is C04's cwrite; the float64 zero-DM arithmetic and its "
             "cast are compared with the exact ℚ model to one quantum; kernels' index expressions are hand-modelled and "
             "tied by correspondence on the output file bytes.", "§5 C07"),
